@@ -75,9 +75,10 @@ def theorems_of(module_file):
 def axiom_audit(module, names):
     """`#print axioms` for every property theorem; returns {name: [axioms]} (None = not found)"""
     os.makedirs(WORK, exist_ok=True)
-    path = os.path.join(WORK, f'audit_{module.replace(".", "_")}.lean')
+    modules = [module] if isinstance(module, str) else list(module)
+    path = os.path.join(WORK, f'audit_{modules[0].replace(".", "_")}.lean')
     with open(path, 'w') as f:
-        f.write(f'import {module}\n' + ''.join(f'#print axioms {n}\n' for n in names))
+        f.write(''.join(f'import {m}\n' for m in modules) + ''.join(f'#print axioms {n}\n' for n in names))
     rc, out, err = sh(['lake', 'env', 'lean', path], cwd=LEAN, timeout=600)
     res = {}
     txt = out + err
@@ -127,6 +128,11 @@ class Build:
         self.prop = prop
         self.module_file = module_file            # e.g. Fips204/Props/C15.lean
         self.module = module_file[:-5].replace('/', '.')
+        # companion files Cxxb.lean, Cxxc.lean, ... hold further property theorems of the same property
+        d, base = os.path.split(module_file)
+        self.companions = sorted(os.path.join(d, f) for f in os.listdir(os.path.join(LEAN, d))
+                                 if re.fullmatch(re.escape(base[:-5]) + r'[a-z]\.lean', f))
+        self.modules = [self.module] + [c[:-5].replace('/', '.') for c in self.companions]
         self.translator = None
         self.lake_log = ''
         self.lean_errs = []
@@ -159,7 +165,7 @@ def prepare(prop, module_file, extra_targets=()):
     b = Build(prop, module_file)
     with Lock('build'):
         b.translator = regenerate()
-        rc, log = lake_build([b.module, 'model'] + list(extra_targets))
+        rc, log = lake_build(b.modules + ['model'] + list(extra_targets))
         b.lake_log = log
         if rc != 0:
             b.lean_errs = lean_errors(log) or [('lake', 0, log[-1500:])]
@@ -168,9 +174,9 @@ def prepare(prop, module_file, extra_targets=()):
             b.model_ok = rc2 == 0
             if not b.model_ok:
                 b.lean_errs += [e for e in lean_errors(log2) if e not in b.lean_errs]
-        b.theorems = theorems_of(module_file)
+        b.theorems = [t for f in [module_file] + b.companions for t in theorems_of(f)]
         if rc == 0:
-            b.axioms = axiom_audit(b.module, [n for n, _ in b.theorems])
+            b.axioms = axiom_audit(b.modules, [n for n, _ in b.theorems])
             for n, ax in b.axioms.items():
                 if ax is None or not set(ax) <= ALLOWED_AXIOMS:
                     b.bad_axioms[n] = ax
@@ -312,7 +318,7 @@ def finish(rep, build, level, coverage_extra, assumptions, n_obligations=None):
         discharged = sum(1 for n, _ in thms if build.axioms.get(n) is not None and n not in build.bad_axioms) if not build.lean_errs else 0
     cov = {
         'obligations': max(obligations, 1), 'discharged': discharged if discharged else (0 if build and build.lean_errs else discharged),
-        'checker_cmd': f"cd /verif/lean && lake build {build.module if build else ''} && lake env lean work/audit (#print axioms)",
+        'checker_cmd': f"cd /verif/lean && lake build {' '.join(build.modules) if build else ''} && lake env lean work/audit (#print axioms)",
         'trusted_base': ["Lean 4.33.0 kernel", "axioms allowed: propext, Classical.choice, Quot.sound",
                          "translator /verif/translator (Gen/*.lean regenerated from /repo this run)",
                          "correspondence: rust_exec (checked + release profiles) vs compiled Lean model"],
